@@ -62,7 +62,8 @@ def _profiles_for(pid, tier):
         for a in ALGOS:
             edge.append(P(f"{a}-order", a, ops=ops, max_steps=steps + 1, max_ins=4, init_caps=[3],
                           caps=[1], weights=[1, 2], hints=["normal"]))
-        edge.append(P("lru-hints", "lru", ops=ops, max_steps=steps + 1 if thorough else steps, max_ins=4,
+        # (with two hints the instance at depth 5 has millions of edges: depth 4 in the thorough tier, 3 in the quick one)
+        edge.append(P("lru-hints", "lru", ops=ops, max_steps=steps, max_ins=4,
                       init_caps=[3], caps=[1], weights=[1, 2]))
         edge.append(P("lru-deep", "lru", keys=[1, 2, 3], hash={1: 0, 2: 1, 3: 2}, weights=[1], hints=["normal", "low"],
                       ops=["insert", "get", "drop"], max_held=1, max_ins=5, max_steps=7 if thorough else 6,
